@@ -21,7 +21,7 @@ PROP = "C15"
 SPEC_MODE = "oracle"
 EXTRA_MODULES = ("Sentinel.Lemmas.LockDiscipline",)
 SIZES = {"quick": 1, "thorough": 1}
-RACE_SECONDS = {"quick": (4.0, 2.5), "thorough": (45.0, 15.0)}     # (all modules but outlier, with outlier)
+RACE_SECONDS = {"quick": (4.0, 2.5, 2.0), "thorough": (45.0, 15.0, 20.0)}     # (all modules but outlier, with outlier, clock-step mode)
 RACE_SEEDS = {"quick": 1, "thorough": 3}
 RULE = ("static: one table row per read/write site of every package-level variable of api, core/base, core/stat, core/flow, "
         "core/isolation, core/hotspot, core/circuitbreaker, core/system, core/outlier (object classes G / G[*] / G[*][*], "
@@ -99,7 +99,7 @@ def _write_placeholder(why):
                 "def accesses : List Access := []\ndef atomicFields : List (Nat × String) := []\n"
                 "def plainUses : List PlainUse := []\ndef lockEdges : List LockEdge := []\ndef lockRanks : List (Nat × Nat) := []\n"
                 "def slotShapes : List SlotShape := []\ndef inserts : List Insert := []\ndef riskyOps : List RiskyOp := []\n"
-                "def callerStores : List CallerStore := []\ndef fieldWrites : List FieldWrite := []\n"
+                "def callerStores : List CallerStore := []\ndef fieldWrites : List FieldWrite := []\ndef onceFacts : List OnceFact := []\n"
                 "def unknowns : List Unknown := [⟨0, .live, \"extract15\", \"-\", \"" + why + "\"⟩]\n"
                 "def setupOnly : List String := []\nend Sentinel.Gen.Access\n")
 
@@ -133,6 +133,7 @@ def exI := resolve classNames knownInserts
   for r in riskyOps do
     if !riskyOkB r then IO.println s!"BADRISKY {r.id}"
   for (s, w) in callerDataBad callerStores fieldWrites do IO.println s!"BADCALLER {s.id} {w.id}"
+  if !onceOkB requiredOnce onceFacts then IO.println s!"BADONCE 0"
   for u in unknowns do
     if u.phase == Phase.live then IO.println s!"BADUNKNOWN {u.id}"
   IO.println s!"KNOWNINSERTS {knownInserts}"
@@ -155,7 +156,7 @@ def lean_report():
     if rc != 0 or "REPORT-END" not in so:
         raise RuntimeError("report script failed:\n" + (so + se)[-3000:])
     rep = {"BAD": [], "RAW": [], "BADPLAIN": [], "RAWPLAIN": [], "BADEDGE": [], "BADSHAPE": [], "RAWSHAPE": [], "BADUNKNOWN": [],
-           "BADINSERT": [], "RAWINSERT": [], "BADRISKY": [], "BADCALLER": [], "text": so}
+           "BADINSERT": [], "RAWINSERT": [], "BADRISKY": [], "BADCALLER": [], "BADONCE": [], "text": so}
     for l in so.splitlines():
         t = l.split()
         if t and t[0] in rep and t[0] != "text":
@@ -174,6 +175,10 @@ def known_entries():
 
 
 # which known key excuses which kind of table row
+KEY_SAMEENTRY = "same-entry-seterror-exit-race"
+# findings that only the race detector shows (heap fields the table does not track): one side's stack runs through a
+# function of the first set, the other side's through a function of either set
+DYN_KNOWN = [(KEY_SAMEENTRY, {"core/base.SentinelEntry.SetError", "core/base.SentinelEntry.SetPair"}, {"core/base.SentinelEntry.Exit"})]
 KEY_NODEMAP, KEY_PLAIN, KEY_SNAP, KEY_INSERT = "outlier-nodemap-race", "bucketstart-plain-read", "outlier-multi-snapshot", "outlier-lost-insert"
 
 
@@ -200,6 +205,10 @@ def static_stage(ctx, tab):
     if set(rep["RAWINSERT"]) - set(rep["BADINSERT"]):
         present.add(KEY_INSERT)
     lines = []
+    if rep["BADONCE"]:
+        lines.append("exit_runs_once fails: core/base.SentinelEntry.Exit does not run all its effects on the entry inside `exitCtl.Do(func(){…})` (sync.Once): "
+                     "facts found: %s — concurrent Exit calls on one entry would both run the exit chain" %
+                     ([(f["fn"], f["once"], "inside=%d" % f["effectsInside"], "outside=%d" % f["effectsOutside"]) for f in tab["onceFacts"]] or "none"))
     for (i,) in rep["BADRISKY"]:
         r = tab["riskyOps"][i]
         lines.append("sections_panic_safe fails: unlockNotDeferred: %s @ %s runs `%s` inside the critical section of %s, which is closed by an explicit "
@@ -322,14 +331,18 @@ def explain(report, pairs, callsites):
         readers = [r for r in (ra, rb) if not r["write"]] or [ra, rb]
         if any(stack_touches(s1, r, callsites) or stack_touches(s2, r, callsites) for r in readers):
             return key, (ra, rb), "downstream"
+    f1, f2 = {fn for fn, _ in s1}, {fn for fn, _ in s2}
+    for key, first, second in DYN_KNOWN:
+        if (f1 & first and f2 & (first | second)) or (f2 & first and f1 & (first | second)):
+            return key, (None, None), "dynamic-known"
     return None
 
 
-def run_race(binary, seconds, seed, outlier):
+def run_race(binary, seconds, seed, outlier, mode="mix"):
     env = core.goenv()
     env["GORACE"] = "halt_on_error=0 exitcode=0 history_size=3"
     env.setdefault("GOMEMLIMIT", "6GiB")
-    p = subprocess.run([binary, "-seconds", str(seconds), "-seed", str(seed), "-outlier=" + ("true" if outlier else "false")],
+    p = subprocess.run([binary, "-seconds", str(seconds), "-seed", str(seed), "-outlier=" + ("true" if outlier else "false"), "-mode=" + mode],
                        capture_output=True, text=True, timeout=seconds + 240, env=env)
     res = None
     for l in p.stdout.splitlines():
@@ -345,7 +358,7 @@ def race_stage(ctx, tab, pairs, present, static_bad_rows):
         ctx.violation("race-build.txt", "the stress program go/cmd/race15 does not build with -race against the current tree, so the "
                       "dynamic cross-check cannot run and the property is not shown\n" + log[-4000:], no_input=True)
         return False
-    secs_main, secs_out = RACE_SECONDS[ctx.tier]
+    secs_main, secs_out, secs_clock = RACE_SECONDS[ctx.tier]
     cs = tab["callSites"]
     tot = {"runs": 0, "reports": 0, "reports_by_key": {}, "oracle_checked": 0, "requests": {}, "churn_ops": 0, "reads": 0, "switches": 0,
            "internal_panics_entry": 0, "internal_panics_exit": 0, "yields": 0, "seconds": 0.0, "outcomes": {}}
@@ -353,9 +366,9 @@ def race_stage(ctx, tab, pairs, present, static_bad_rows):
     nontrivial = set()
     for s in range(RACE_SEEDS[ctx.tier]):
         seed = ctx.seed * 1000 + s
-        for outlier, secs in ((False, secs_main), (True, secs_out)):
-            rc, res, err = run_race(binary, secs, seed, outlier)
-            tag = "seed=%d outlier=%s seconds=%s" % (seed, outlier, secs)
+        for outlier, secs, mode in ((False, secs_main, "mix"), (True, secs_out, "mix"), (False, secs_clock, "clockstep")):
+            rc, res, err = run_race(binary, secs, seed, outlier, mode)
+            tag = "seed=%d outlier=%s seconds=%s mode=%s" % (seed, outlier, secs, mode)
             tot["runs"] += 1
             if res is None:
                 # no RESULT line: the runtime killed the process (e.g. `fatal error: concurrent map read and map write`)
@@ -402,7 +415,11 @@ def race_stage(ctx, tab, pairs, present, static_bad_rows):
             tot["oracle_checked"] += res["oracleChecked"]
             tot["churn_ops"] += sum(res["churn"].values())
             tot["reads"] += res["reads"]
-            tot["switches"] += res["switches"]
+            if mode == "clockstep":
+                tot["clock_steps"] = tot.get("clock_steps", 0) + res["switches"]
+                tot["getter_calls_under_stepping_clock"] = tot.get("getter_calls_under_stepping_clock", 0) + res["reads"]
+            else:
+                tot["switches"] += res["switches"]
             tot["yields"] += res["yields"]
             for k, v in res["requests"].items():
                 tot["requests"][k] = tot["requests"].get(k, 0) + v
@@ -543,6 +560,9 @@ def run(ctx):
     # known findings: printed while the regenerated table still shows them
     kn = {e["key"]: e for e in known_entries()}
     replayed = []
+    for key in {k for k, _, _ in DYN_KNOWN}:
+        if ctx.cov.get("race", {}).get("reports_by_key", {}).get(key):
+            present.add(key)
     for key in sorted(present):
         e = kn.get(key)
         if e is None or e.get("kind") != "known":
@@ -555,6 +575,8 @@ def run(ctx):
                 r.get("reports_by_key", {}).get(key, 0), r.get("crashes_by_key", {}).get(key, 0))
         if key == KEY_SNAP:
             extra = " [stress: %d recovered panics in SlotChain.Entry with outlier churn this run]" % r.get("internal_panics_entry", 0)
+        if key == KEY_SAMEENTRY:
+            extra = " [race detector: %d matching reports this run]" % r.get("reports_by_key", {}).get(key, 0)
         if key == KEY_INSERT:
             extra = " [table: %s]" % "; ".join("%s[%s] in %s" % (tab["inserts"][i]["class"], tab["inserts"][i]["key"], tab["inserts"][i]["fn"])
                                                 for (i,) in rep["RAWINSERT"] if (i,) not in set(rep["BADINSERT"]))
@@ -602,14 +624,14 @@ def replay(path):
                 print("   ", fmt_row(a), "\n    ", fmt_row(b))  # noqa
         if k in want:
             fail = 1
-    runs = re.findall(r"race seed=(\d+) outlier=(True|False|true|false) seconds=([0-9.]+)", txt)
+    runs = re.findall(r"race seed=(\d+) outlier=(True|False|true|false) seconds=([0-9.]+)(?: mode=(\w+))?", txt)
     if runs:
         binary, log = build_race()
         if binary is None:
             print(log)
             return 2
-        for seed, outl, secs in runs[:4]:
-            rc, res, err = run_race(binary, float(secs), int(seed), outl.lower() == "true")
+        for seed, outl, secs, mode in runs[:4]:
+            rc, res, err = run_race(binary, float(secs), int(seed), outl.lower() == "true", mode or "mix")
             reps = parse_races(err, core.REPO)
             print("race seed=%s outlier=%s: %d detector reports, oracle bad=%s, internal panics=%s" %
                   (seed, outl, len(reps), res and res["oracleBadCount"], res and res["internalPanics"]))
